@@ -261,6 +261,15 @@ func runC15(e *Env) error {
 			mu.Unlock()
 			c15RoundTrip(e, &d, one, fmt.Sprintf("charset/collation grid %d", i), viol, &mu)
 		}
+		realms := c15Realms(&d)
+		rk := make([]string, 0, len(realms))
+		for k := range realms {
+			rk = append(rk, k)
+		}
+		sort.Strings(rk)
+		for _, k := range rk {
+			c15RealmRoundTrip(e, &d, realms[k], k, viol, &mu)
+		}
 		for _, t := range c15AttrTables(&d, hx.NewRand(e.Seed, "c15-"+d.name)) {
 			one := schema.New(d.schema)
 			t.Schema = one
